@@ -10,7 +10,7 @@ from ..facts import KeyObj, KEYS21, V2S, voigt_canon, c_intrinsic
 from ..linalg import LINALG, const_matrix
 from ..model import dotted_name, src
 from ..report import AnalysisError
-from ..sym import Ev, Obj, Tup, DictV, ArrV, LibV, RaisedV, as_sym, is_sym
+from ..sym import Ev, Obj, Tup, DictV, ArrV, LibV, RaisedV, as_sym, is_sym, explore_branches, path_substitution
 
 SHEAR = "cij.core.phonon_contribution.shear:ShearElasticModulusPhononContribution"
 SHMOD = "cij.core.phonon_contribution.shear"
@@ -126,14 +126,33 @@ def r_solver(ctx, model):
         ctx.check(skipped == mult, f"{key}: skipped target terms = multiplicity", w, expected=str(mult), found=str(skipped),
                   explanation="the number of energy terms carrying the target differs from the multiplicity the result is divided by", key=f"{key}.multiplicity")
         # strain_rotated
-        sr = ev.get_attr(obj, "strain_rotated")
-        bad = []
-        for a in range(3):
-            wanta = sum(Tm[i, a] ** 2 * e[i] for i in range(3))
-            if not is_zero(sr.get((a,)) - wanta):
-                bad.append(f"[{a}] = {sr.get((a,))}")
-        tr = sum(sr.get((a,)) for a in range(3))
-        ctx.check(not bad and is_zero(tr - sum(e)) and sr.shape == (3,), f"{key}: strain_rotated = diag(T^T diag(e) T), trace preserved", model.where(f"{SHEAR}.strain_rotated"),
+        # a shortcut taken on a tolerance test of the strains is followed both ways; on the branch where the test holds the
+        # equality it asserts is assumed (of exactly the quantities it compares: one grid position is not the whole grid)
+        def fold_sr(decide):
+            ev.branch_oracle = decide
+            pc = obj.__dict__.get("_prop_cache", {})
+            for kk in [kk for kk in pc if kk[1].endswith(".strain_rotated")]:
+                del pc[kk]
+            try:
+                return ev.get_attr(obj, "strain_rotated")
+            finally:
+                ev.branch_oracle = None
+        bad, sr = [], None
+        for decisions, sr in explore_branches(fold_sr):
+            sub = path_substitution(decisions)
+            if sub is None:
+                raise AnalysisError(f"{key}: strain_rotated branches on a condition that cannot be assumed symbolically")
+            if not isinstance(sr, ArrV) or sr.shape != (3,):
+                bad.append(f"returns {short(sr, 60)}")
+                continue
+            for a in range(3):
+                wanta = sum(Tm[i, a] ** 2 * e[i] for i in range(3))
+                if not is_zero((as_sym(sr.get((a,))) - wanta).xreplace(sub)):
+                    bad.append(f"[{a}] = {sr.get((a,))}" + (f" when {', '.join(c.text for c, o in decisions if o)}" if decisions else ""))
+            if not is_zero((sum(as_sym(sr.get((a,))) for a in range(3)) - sum(e)).xreplace(sub)):
+                bad.append("trace not preserved")
+        tr = sum(e)
+        ctx.check(not bad and isinstance(sr, ArrV) and sr.shape == (3,), f"{key}: strain_rotated = diag(T^T diag(e) T), trace preserved", model.where(f"{SHEAR}.strain_rotated"),
                   expected="sum_i T[i,a]^2 e_i", found="; ".join(bad) or "as required", explanation="the axial strain fractions assigned to the rotated frame are not the "
                   "diagonal of the rotated diagonal strain tensor", key=f"{key}.strain_rotated")
     ctx.exhaustive = True
